@@ -367,6 +367,19 @@ def overwritten_attr_stores(ctx, funcs, rule='DEADSTORE'):
                 if v is None or isinstance(v, ast.Constant) or (
                         isinstance(v, (ast.List, ast.Dict, ast.Tuple, ast.Set)) and not getattr(v, 'elts', getattr(v, 'keys', []))):
                     continue
+                # a store inside a branch that leaves the function (`if opted_out: self.X = ...; return`)
+                # is never followed by the later store
+                from ..srcmodel import _always_exits
+                leaves, node_ = False, par
+                while node_ is not None and node_ is not fi.node:
+                    up = getattr(node_, '_parent', None)
+                    for field in ('body', 'orelse'):
+                        blk = getattr(up, field, None)
+                        if isinstance(blk, list) and node_ in blk and up is not fi.node and _always_exits(blk):
+                            leaves = True
+                    node_ = up
+                if leaves:
+                    continue
                 for (j, st2, y) in lst:
                     if j <= i or not (isinstance(st2, ast.Assign) and any(t is y for t in st2.targets)):
                         continue
